@@ -12,16 +12,32 @@ struct C01 : Harness {
             Program p;
             int kind = *rc::gen::element((int)K128, (int)K64);
             int bs = kind_bs(kind);
-            int z = *irange(1, 3);
-            p.push_back(mkop(std::string("new.") + kname(kind)).set("fill", *rc::gen::element(0, 0xA5, 0xFF)));
-            p.push_back(mkop(opn(kind, "set_key")).set("s", 0).set("key", *gbytes(bs * z)).set("len", bs * z).set("ko", *goffset()));
-            int nb = *irange(1, 4);
-            for (int i = 0; i < nb; ++i) {
-                Op e = mkop(opn(kind, *chance(50) ? "dec" : "enc"));
-                e.set("s", 0).set("in", *gbytes(bs));
-                if (*chance(25)) e.set("ov", *irange(-(bs - 1), bs - 1)).set("io", *goffset());
-                else e.set("io", *goffset()).set("oo", *goffset());
-                p.push_back(e);
+            // one to three schedules per case; later keys are sometimes derived from earlier ones (same bytes, same
+            // prefix with a different tail, one bit flipped) so that a schedule computed from the wrong key material
+            // - a stale cache, a truncated comparison - shows inside a single, replayable case
+            int nkeys = *rc::gen::weightedOneOf<int>({{5, rc::gen::just(1)}, {3, rc::gen::just(2)}, {1, rc::gen::just(3)}});
+            std::vector<Bytes> keys;
+            for (int k = 0; k < nkeys; ++k) {
+                int z = *irange(1, 3);
+                Bytes key = *gbytes((size_t)bs * z);
+                if (!keys.empty() && *chance(60)) {
+                    key = *rc::gen::elementOf(keys);
+                    int how = *irange(0, 3);
+                    if (how == 0) { size_t keep = (size_t)*irange(1, (int)key.size() - 1); Bytes t = *gbytes(key.size() - keep); for (size_t i = keep; i < key.size(); ++i) key[i] = t[i - keep]; }
+                    else if (how == 1) { int bit = *irange(0, (int)key.size() * 8 - 1); key[(size_t)bit / 8] ^= (uint8_t)(1 << (bit % 8)); }
+                    else if (how == 2) { size_t nz = (size_t)bs * (size_t)*irange(1, 3); key.resize(nz, (uint8_t)*irange(0, 255)); }
+                }
+                keys.push_back(key);
+                p.push_back(mkop(std::string("new.") + kname(kind)).set("fill", *rc::gen::element(0, 0xA5, 0xFF)));
+                p.push_back(mkop(opn(kind, "set_key")).set("s", k).set("key", key).set("len", (long long)key.size()).set("ko", *goffset()));
+                int nb = *irange(1, 3);
+                for (int i = 0; i < nb; ++i) {
+                    Op e = mkop(opn(kind, *chance(50) ? "dec" : "enc"));
+                    e.set("s", *irange(0, k)).set("in", *gbytes(bs));
+                    if (*chance(25)) e.set("ov", *irange(-(bs - 1), bs - 1)).set("io", *goffset());
+                    else e.set("io", *goffset()).set("oo", *goffset());
+                    p.push_back(e);
+                }
             }
             return p;
         });
@@ -34,6 +50,8 @@ struct C01 : Harness {
         if (!d.empty()) return d;
         if (!st.shrinking) {
             const Bytes *key = p[1].getb("key");
+            int nk = 0; for (auto &op : p) if (op.name.find("set_key") != std::string::npos) ++nk;
+            if (nk > 1) st.count("several-related-keys-in-one-case");
             bool zero = true;
             for (auto v : *key) zero = zero && v == 0;
             bool kat = false;
